@@ -538,6 +538,10 @@ get_next_token0() {
       // instantiation and call yacc recursively to parse the template
       // parameters.
       CPPDeclaration *decl = ident->find_template(current_scope, global_scope);
+      if (decl != nullptr && decl->get_template_scope() == nullptr) {
+        // What was found (through a dependent base, say) is not a template.
+        decl = nullptr;
+      }
       if (decl != nullptr) {
         if (decl->as_concept() != nullptr) {
           nested_skip_template_instantiation(decl->get_template_scope());
@@ -600,6 +604,9 @@ get_next_token0() {
         // parameters.
         CPPDeclaration *decl =
           ident->find_template(current_scope, global_scope);
+        if (decl != nullptr && decl->get_template_scope() == nullptr) {
+          decl = nullptr;
+        }
         if (decl != nullptr) {
           if (decl->as_concept() != nullptr) {
             nested_skip_template_instantiation(decl->get_template_scope());
